@@ -4,6 +4,7 @@ import (
 	"go/ast"
 	"go/token"
 	"go/types"
+	"sort"
 	"strings"
 
 	"golang.org/x/tools/go/packages"
@@ -603,5 +604,84 @@ func refsCollectedEverywhere(r *core.Run) {
 	})
 	if n == 0 {
 		r.Fatal("R-FLOW/deps: no function of %s appends a *sourcewalk.RefNode to its receiver's list (summaryWalker.addRef)", convRel)
+	}
+}
+
+// rawBodyTypeAgreement (R-CONST/rawbody): a method without a response block
+// returns a raw body; sourcewalk names its output type with a string constant
+// and j5convert recognises the case by comparing the output type with a string
+// constant, to register the import of the file that declares the type. Two
+// spellings of one name in two packages: they have to be the same string, or
+// the generated service file refers to a type it does not import.
+func rawBodyTypeAgreement(r *core.Run) {
+	r.Rule("R-CONST/rawbody", "the string constants sourcewalk assigns as the output type of a method without response (those naming a google.api type) are exactly the constants j5convert compares a method's OutputType with before it registers that type's import")
+	wpk, cpk := r.P.Pkg(walkRel), r.P.Pkg(convRel)
+	if wpk == nil || cpk == nil {
+		r.Fatal("anchor: packages %s / %s not found", walkRel, convRel)
+		return
+	}
+	produced := map[string]token.Pos{}
+	core.AllFuncDecls(wpk, func(fd *ast.FuncDecl) {
+		if fd.Body == nil {
+			return
+		}
+		ast.Inspect(fd.Body, func(n ast.Node) bool {
+			var vals []ast.Expr
+			switch x := n.(type) {
+			case *ast.AssignStmt:
+				for i, l := range x.Lhs {
+					if i < len(x.Rhs) && strings.Contains(strings.ToLower(core.ExprStr(l)), "outputtype") {
+						vals = append(vals, x.Rhs[i])
+					}
+				}
+			case *ast.KeyValueExpr:
+				if id, ok := x.Key.(*ast.Ident); ok && id.Name == "OutputType" {
+					vals = append(vals, x.Value)
+				}
+			}
+			for _, v := range vals {
+				if s, ok := core.ConstString(wpk.TypesInfo, v); ok && strings.Contains(s, "google.api.") {
+					produced[s] = v.Pos()
+				}
+			}
+			return true
+		})
+	})
+	compared := map[string]token.Pos{}
+	core.AllFuncDecls(cpk, func(fd *ast.FuncDecl) {
+		if fd.Body == nil {
+			return
+		}
+		ast.Inspect(fd.Body, func(n ast.Node) bool {
+			b, ok := n.(*ast.BinaryExpr)
+			if !ok || b.Op != token.EQL {
+				return true
+			}
+			for _, pair := range [][2]ast.Expr{{b.X, b.Y}, {b.Y, b.X}} {
+				if sel, ok := core.Unparen(pair[0]).(*ast.SelectorExpr); ok && sel.Sel.Name == "OutputType" {
+					if s, ok := core.ConstString(cpk.TypesInfo, pair[1]); ok {
+						compared[s] = b.Pos()
+					}
+				}
+			}
+			return true
+		})
+	})
+	if len(produced) == 0 || len(compared) == 0 {
+		r.Fatal("R-CONST/rawbody: the raw-body output type constant was not found on both sides (sourcewalk: %d, j5convert: %d)", len(produced), len(compared))
+		return
+	}
+	for s, pos := range produced {
+		o := r.Add("R-CONST/rawbody", walkRel+" | output type "+s, pos, "output type of a method without a response block")
+		if _, ok := compared[s]; ok {
+			o.Auto("j5convert compares OutputType with the same constant")
+		} else {
+			var cs []string
+			for c := range compared {
+				cs = append(cs, c)
+			}
+			sort.Strings(cs)
+			o.Fail("sourcewalk names the raw body type %q, j5convert registers the import only for %q: the service file refers to a type whose file it does not import, and a valid package with a method without response fails to link", s, strings.Join(cs, ", "))
+		}
 	}
 }
